@@ -6,7 +6,9 @@ import applyc, streams, gen, emit, scen
 
 THEOREMS = {"C12": ["strip_path_spec", "strip_path_basename", "unquote_quote", "file_line_plain", "file_line_quoted",
                     "guess_order", "guess_never_devnull"],
-            "C13": ["consume_printed", "parse_unified_header", "unified_roundtrip", "rejects_loop", "rejects_skipped"],
+            "C13": ["consume_printed", "parse_unified_header", "unified_roundtrip", "rejects_loop", "rejects_skipped",
+                    "context_roundtrip", "context_roundtrip_list", "normalise_sides", "normalise_idem", "context_roundtrip_normal",
+                    "reject_context_file", "wf_hunk_c_unified", "roundtrip_both_forms", "wf_hunk_cb_ok", "tail_ok_cb_ok"],
             "C14": ["split_lines_roundtrip", "split_lines_wf", "terminator_keep", "terminator_lf", "terminator_crlf",
                     "final_newline_iff", "apply_output_lines"],
             "C20": ["define_eval"]}
@@ -488,6 +490,46 @@ def cpp_eval(lines, defined, sym):
     return out if not stack else None
 
 
+def define_drifted(run_, rng, n):
+    """-D on targets that have drifted (hunks placed with fuzz, with offsets, under -l): judged as define_eval states it --
+    evaluated with SYM defined the output is what the same call writes without -D, with SYM undefined it is the target (every
+    original line, context lines of placed hunks included, once, in order, with its own bytes)"""
+    bad, mism = [], []
+    dr = [c for c in applyc.family_drifted(rng, n)]
+    for c in dr:
+        c["f"] = [(t.replace("#", "h"), "L") for t, nl in c["f"]]
+        c["hs"] = [dict(h, body=[(o_, t.replace("#", "h"), "L") for o_, t, nl in h["body"]]) for h in c["hs"]]
+        c["opts"]["nl"] = "native"; c["opts"].pop("v", None)
+    with_d = [applyc.apply_case(applyc.opt_str(D=hx("SYM"), **c["opts"]), "unified", c["f"], c["hs"]) for c in dr]
+    without = [applyc.apply_case(applyc.opt_str(**c["opts"]), "unified", c["f"], c["hs"]) for c in dr]
+    impl2, model2 = run_both(with_d + without)
+    nd_ = len(dr)
+    for i, c in enumerate(dr):
+        run_.count(with_d[i], True, "-D drifted")
+        if impl2[i] != model2[i]:
+            mism.append((i, "L1 APPLY -D (drifted)", dict(case=with_d[i], impl=impl2[i], model=model2[i])))
+        rd, rn = applyc.parse_result(impl2[i]), applyc.parse_result(impl2[nd_ + i])
+        if rd is None or rn is None:
+            continue
+        def tl(b_):
+            ls_ = b_.decode("latin-1").split("\n")
+            if ls_ and ls_[-1] == "":
+                ls_.pop()
+            return ls_
+        lines = tl(rd["out"])
+        new = cpp_eval(lines, True, "SYM"); old = cpp_eval(lines, False, "SYM")
+        rep = dict(case=with_d[i], output=rd["out"].decode("latin-1"), without_D=rn["out"].decode("latin-1"))
+        if new is None or old is None:
+            bad.append((i, "-D output (target drifted) has unbalanced conditionals", rep))
+        elif new != tl(rn["out"]):
+            bad.append((i, "-D output evaluated with SYM defined differs from what the same call writes without -D", rep))
+        elif old != [t for t, nl in c["f"]]:
+            bad.append((i, "-D output evaluated with SYM undefined is not the original target", rep))
+        elif rd["failed"] != rn["failed"]:
+            bad.append((i, "-D changes the number of rejected hunks (%d vs %d)" % (rd["failed"], rn["failed"]), rep))
+    return bad, mism
+
+
 def run_c20(run_, rng, tier, exe):
     q = tier == "quick"
     fam = []
@@ -541,40 +583,8 @@ def run_c20(run_, rng, tier, exe):
             adds = sum(1 for o, _, _ in sum((h["body"] for h in c["hs"]), []) if o == "+")
             if len(lines) - nd != len(c["a"]) + adds:
                 bad.append((i, "-D output duplicates or drops common lines", rep))
-    # -D on targets that have drifted (hunks placed with fuzz, with offsets, under -l): judged as define_eval states it —
-    # evaluated with SYM defined the output is what the same call writes without -D, with SYM undefined it is the target
-    dr = [c for c in applyc.family_drifted(rng, 1500 if q else 25000)]
-    for c in dr:
-        c["f"] = [(t.replace("#", "h"), "L") for t, nl in c["f"]]
-        c["hs"] = [dict(h, body=[(o_, t.replace("#", "h"), "L") for o_, t, nl in h["body"]]) for h in c["hs"]]
-        c["opts"]["nl"] = "native"; c["opts"].pop("v", None)
-    with_d = [applyc.apply_case(applyc.opt_str(D=hx("SYM"), **c["opts"]), "unified", c["f"], c["hs"]) for c in dr]
-    without = [applyc.apply_case(applyc.opt_str(**c["opts"]), "unified", c["f"], c["hs"]) for c in dr]
-    impl2, model2 = run_both(with_d + without)
-    nd_ = len(dr)
-    for i, c in enumerate(dr):
-        run_.count(with_d[i], True, "-D drifted")
-        if impl2[i] != model2[i]:
-            mism.append((i, "L1 APPLY -D (drifted)", dict(case=with_d[i], impl=impl2[i], model=model2[i])))
-        rd, rn = applyc.parse_result(impl2[i]), applyc.parse_result(impl2[nd_ + i])
-        if rd is None or rn is None:
-            continue
-        def tl(b_):
-            ls_ = b_.decode("latin-1").split("\n")
-            if ls_ and ls_[-1] == "":
-                ls_.pop()
-            return ls_
-        lines = tl(rd["out"])
-        new = cpp_eval(lines, True, "SYM"); old = cpp_eval(lines, False, "SYM")
-        rep = dict(case=with_d[i], output=rd["out"].decode("latin-1"), without_D=rn["out"].decode("latin-1"))
-        if new is None or old is None:
-            bad.append((i, "-D output (target drifted) has unbalanced conditionals", rep))
-        elif new != tl(rn["out"]):
-            bad.append((i, "-D output evaluated with SYM defined differs from what the same call writes without -D", rep))
-        elif old != [t for t, nl in c["f"]]:
-            bad.append((i, "-D output evaluated with SYM undefined is not the original target", rep))
-        elif rd["failed"] != rn["failed"]:
-            bad.append((i, "-D changes the number of rejected hunks (%d vs %d)" % (rd["failed"], rn["failed"]), rep))
+    b9, m9 = define_drifted(run_, rng, 1500 if q else 25000)
+    bad += b9; mism += m9
     # the Gallina evaluator and the Python one must agree on every output seen (the oracle of this check is the specification
     # of the theorem, not a second opinion)
     gres = run_model([g[1] for g in geval])
